@@ -213,13 +213,14 @@ PROPS = {
         scope="lexer functions and calculate_named_arg_order",
         assumptions=[]),
     "C29": dict(
-        units=["u11_lexer", "u19_seplist"], level="model_checking",
+        units=["u11_lexer", "u19_seplist", "u12_prec"], level="model_checking",
         level_text=("Lexer half: the lifted '/' arm of tokenize_file: `//` lands on the next newline or end of input; `/*` lands just after the first `*/` (or at "
                     "end of input); no token is produced for the comment; comment bodies of <= 5 (7 thorough) chars over {* / newline a e-acute space \\ \" '}; "
                     "whole tokenize_file on every text of <= 5 atoms (comment and string atoms included). Parser half: the real parse_delimited_list "
                     "(argument lists, tuples, arrays, fields with `,`; statement blocks with `;`) and the top-level item loop of parse_file accept exactly "
                     "the grammar `NL* (item (sep NL* item)* sep? NL*)? close` with sep = separator token or one Newline, return the items in order, and "
-                    "parse a string and each of its separator<->newline / extra-newline edits identically: every token string of length <= 12 (16 thorough)."),
+                    "parse a string and each of its separator<->newline / extra-newline edits identically: every token string of length <= 12 (16 thorough); "
+                    "the real parse_expr parses `Newline Newline s` exactly as parse_expr_bp(0) parses s (every operator/term token string of length <= 7, 8 thorough)."),
         level_note=("Lexer arm is a lifted slice; the parser obligations are exhaustive native execution of the sliced real functions with one-token "
                     "production stubs: bounded, not proved. Comments BETWEEN tokens reach the parser as no token at all (lexer obligation), so the two "
                     "halves compose; what a production parses is outside (C31 for expressions)."),
